@@ -763,7 +763,7 @@ func c41Tool(t *testing.T, c *ev.Collector, env *c41Env) {
 		descr string
 	}
 	specs := []spec{
-		{args: []string{"-I", "plain id", "-n", "alice,bob", "-V", "-1h:+1h", "-z", "7"}, descr: "user"},
+		{args: []string{"-I", "plain id", "-n", "alice,bob", "-V", "20260101:20280101", "-z", "7"}, descr: "user"},
 		{args: []string{"-I", "h", "-h", "-n", "host.example,192.0.2.7", "-V", "always:forever"}, host: true, descr: "host-forever"},
 		{args: []string{"-I", "opts", "-n", "alice", "-O", "clear", "-O", "permit-pty", "-O", "force-command=ls -l", "-O", "source-address=10.0.0.0/8", "-z", "18446744073709551615"}, descr: "options"},
 		{args: []string{"-I", "custom", "-O", "extension:flag@example", "-O", "extension:val@example=some value", "-O", "critical:crit@example=v", "-V", "20200101:20991231"}, descr: "custom-ext"},
@@ -829,7 +829,7 @@ func c41Tool(t *testing.T, c *ev.Collector, env *c41Env) {
 			}
 			roundTrip := bytes.Equal(pc.Marshal(), b)
 			cc := c41Permissive(pc)
-			cc.now = time.Now().Unix() // ssh-keygen -V is relative to the wall clock
+			cc.now = c41Now // all -V intervals are absolute and contain this instant
 			if sp.host {
 				cc.method, cc.addr = "CheckHostKey", pc.ValidPrincipals[0]+":22"
 			} else if len(pc.ValidPrincipals) > 0 {
